@@ -256,6 +256,17 @@ def t_tp_quad_q2(c):
     return [f * inner(grad(u), grad(v)) * dx + inner(u, v) * dx, inner(f, v) * dx, inner(f, v) * ufl.ds]
 
 
+def t_mixed_dim_geo(c):
+    """trial function on a tetrahedron mesh, test function on a triangle mesh (codimension 1), and the same geometric
+    quantity of BOTH cell types in one kernel (one reference table per cell type)"""
+    m3 = c.mesh("tetrahedron")
+    m2 = c.mesh("triangle", gdim=3)
+    V3 = c.space(m3, _el("Lagrange", "tetrahedron", 1))
+    V2 = c.space(m2, _el("Lagrange", "triangle", 1))
+    u, v = ufl.TrialFunction(V3), ufl.TestFunction(V2)
+    return [ufl.CellVolume(m3) * ufl.CellVolume(m2) * u * v * ufl.ds(domain=m3)]
+
+
 def t_tp_hex_q2(c):
     m, V = _tp(c, "hexahedron", 2)
     u, v = ufl.TrialFunction(V), ufl.TestFunction(V)
@@ -357,6 +368,7 @@ FORM_TEMPLATES = {
     "manifold_tri": t_manifold_tri,
     "p2_geometry_tri": t_p2_geometry_tri,
     "hex_q1": t_hex_q1,
+    "mixed_dim_geo": t_mixed_dim_geo,
     "tp_quad_q2": t_tp_quad_q2,
     "tp_hex_q2": t_tp_hex_q2,
     "expr_p2_tri": t_expr_p2_tri,
